@@ -14,6 +14,7 @@ type Lexer struct {
 	ch           byte // current char under examination
 	inside       bool
 	curLine      int
+	tagLine      int // line on which the tag being read begins
 }
 
 // New Lexer from the input string
@@ -55,8 +56,15 @@ func (l *Lexer) nextInsideToken() token.Token {
 	var tok token.Token
 
 	l.skipWhitespace()
-	// every token is stamped with the line on which it begins
+	// every token of a tag is stamped with the line on which that tag begins (errors are reported
+	// against the tag); the end of the input is stamped with the line it is on
 	line := l.curLine
+	switch {
+	case l.ch == '<' && l.peekChar() == '%':
+		l.tagLine = line
+	case l.ch != 0 || !l.atEOF():
+		line = l.tagLine
+	}
 
 	switch l.ch {
 	case '=':
